@@ -164,20 +164,21 @@ def run(cx):
         I = f'(itervar (range 0 (len {PTS})))'
         J = f'(itervar (range (add 1 {I}) (len {PTS})))'
         D = f'(call *points::dist (index {PTS} {I}) (index {PTS} {J}))'
+        from vpa import comp as CMP
         dag = b.dag()
         upd_pair = upd_dist = False
         for (bb, pos, kind, pay) in [d for l in b.defs().values() for d in l]:
             if kind != 'assign' or pay['pl']['p']:
                 continue
-            if bb not in b.loop_blocks(b.loops()[-1][0]) and bb not in b.loop_blocks(b.loops()[0][0]):
+            if not any(bb in lp[1] for lp in b.loops()):
                 continue
-            val = simplify(dag.rvalue(pay['rv'], bb, pos))
-            g = cx.guarded(b, bb, f'(lt _ {D})', True)
+            val = CMP.canon(simplify(dag.rvalue(pay['rv'], bb, pos)))      # index form: `for i in 0..n`, `.iter().enumerate()` and `.enumerate().skip(i + 1)` alike
+            g = cx.guarded_canon(b, bb, f'(lt _ {D})', True)
             if g is not None and match(f'(agg tuple (0 {I}) (1 {J}))', val) is not None and pay['pl']['l'] in cx.returned_locals(b) | {0}:
                 upd_pair = True
             if g is not None and match(D, val) is not None and b.local_ty(pay['pl']['l']) == 'f64' and b.local_name(pay['pl']['l']):
                 upd_dist = True
-        cmp_ok = any(find(f'(lt (anyphi 0.0) {D})', simplify(dag.operand(blk['term']['d'], bi, len(blk['stmts'])))) is not None
+        cmp_ok = any(find(f'(lt (anyphi 0.0) {D})', CMP.canon(simplify(dag.operand(blk['term']['d'], bi, len(blk['stmts']))))) is not None
                      for bi, blk in enumerate(b.blocks) if bi in b.live and blk['term']['k'] == 'switch')
         cx.ob('ORDER', 'farthest_pair_indices:exhaustive', okx and len(b.loops()) == 2, 'the diameter scan visits EVERY pair i < j of hull vertices: neither loop can be left early', where=b.file, found='; '.join(why) or None)
         cx.ob('EXPR', 'farthest_pair_indices:running-maximum', upd_pair and upd_dist and cmp_ok,
